@@ -108,7 +108,7 @@ class GraphView:
     def __init__(self, mp):
         g = mp.graph
         self.G = {k: [n for n in v[1] if n in g and g[n][0] is not None] for k, v in g.items() if v[0] is not None}
-        self.linked = {}
+        self.linked = {tuple(k): [tuple(x) for x in v] for k, v in (getattr(mp, 'linked_edges', None) or {}).items()}
 
 
 def realmap_apply(mp, mutation):
@@ -259,6 +259,8 @@ def main(tier):
     real = [('realmap', lay, fam, ne, mut, rb) for lay, mut in (('oneway4', ('del_node', 'D')), ('oneway4', ('purge',)),
                                                                 ('oneway3', ('add_node', 'D', (0.0, 3.0), [('C', 'D')])), ('line3', ('del_node', 'C')))
             for fam, ne in (('simple_n', True), ('dist', True), ('simple', False))]
+    # linked parallel edges declared for one direction of a two-way road only (real InMemMap.edges_nbrto)
+    real += [('realmap', 'par_link', fam, ne, ('none',), rb) for fam, ne in (('dist', False), ('simple', True))]
     res = list(res) + list(run_instances(run_instance, real))
     ch = run_crosshair(tier)
     rep.extra['crosshair_node_path_to_only_nodes'] = ch
@@ -273,7 +275,7 @@ def main(tier):
                       else "all digraphs <=3 nodes, fork, oneway4, path4, diamond, star, linked3, par2, linkin",
                       T="2..3", variants="self-listed neighbours on/off, one-way, dead ends, linked pair, non-emitting on/off, width-1 then widen, extend",
                       crosshair="node_path_to_only_nodes: state sequences of length 4 over symbolic int labels satisfying the walk predicate")
-    rep.bounds['real_map'] = "real InMemMap layouts oneway3/oneway4/line3 with 1-D symbolic observations (T=2): match, change the map (del_node, purge, add_node+add_edge), match again with a fresh and with the old matcher"
+    rep.bounds['real_map'] = "real InMemMap layouts oneway3/oneway4/line3/par_link (linked parallel edge for one direction of a two-way road) with 1-D symbolic observations (T=2): match, change the map (del_node, purge, add_node+add_edge), match again with a fresh and with the old matcher"
     rep.outside = ["SqliteMap neighbour queries (see C12)", "graphs beyond the bound", "jump operation (continue_with_distance)"]
     rep.assumptions = ["AbsMap lists neighbours like InMemMap (end-node successors + linked edges; node itself when self_listed)"]
     gabs.collect(rep, res, PID, need_tags=('moved', 'nonemitting_on_best_path', 'linked_edge_hop', 'u_turn'))
